@@ -57,6 +57,12 @@ CHECKS = {
  "C16": ("runtime monitors: content oracle for every surviving handle + arena ledger hook (live arenas == arenas referenced by live values, no double unregistration) + structural check + counting allocator, over all drop permutations of sharing scenarios and random parse/clone/take/insert/mutate/thread/drop histories; ASan/LSan; TSan for the threaded stress",
          "Exploration: every drop order of 32 templates (<= 6 handles, 720 orders; whole-input, struct-embedded, Vec, stream, cross-document insertion, mutated clones, rawnumber), 20k (quick) random histories, 8-thread barrier stress.",
          "Trusted: hooks H2/H3 (sonic-rs feature verif_hooks), ASan/LSan/TSan runtimes (TSan built with -Zbuild-std)."),
+ "C17": ("cross-build runtime monitor: per-case digests of every observable (Ok/Err, values, raw spans and offsets, serialised bytes, error offset/line/column/message) over the C02/C03/C05/C09/C10/C12 case streams, joined case by case between the native (AVX2/PCLMUL) and the baseline x86-64 build; every public sonic_simd primitive vs scalar loops in each build and under Miri for riscv64 (pure-Rust vector types)",
+         "Exploration: ~720k (quick) transcribed cases compared pairwise; primitives: eq/le/gt/splat/loadu/storeu/mask ops/bitmask for all 256 byte values in every lane of u8x16/u8x32/u8x64, i8x32, BitMask methods of u16/u32/u64 for all single bits, boundaries and random masks.",
+         "Trusted: FNV-1a digests (a collision would hide a difference); the private helpers (prefix_xor, get_nonspace_bits, simd_str2int) are not callable and are covered only through the transcripts."),
+ "C18": ("runtime monitors: (1) Miri (Tree Borrows, data-race detector, leak check, its own preemption and weak-CAS failure injection, 16 seeds x 4 rate settings); (2) turn-based scheduler behind the verif_hooks yield points serialising 2-3 readers at every atomic operation of the lazy caches according to seeded schedule vectors (with weak-CAS failure injection), result oracle + allocation ledger per run, distinct observed event sequences counted; (3) free-running barrier stress under ASan/LSan and TSan",
+         "Exploration: 7 scenarios x 6400 schedule vectors (quick), ~12.9k distinct event sequences observed; not an exhaustive DFS - the claim is the measured set.",
+         "Trusted: Miri, TSan/ASan runtimes, hook H1. The scheduler serialises threads, so it explores interleavings at the granularity of the hooked atomic operations only."),
  "C02": ("differential runtime monitor: independent RFC 8259 recogniser as accept/reject oracle over enumerated token sequences and mutated documents; ASan build",
          "Exploration: every listed entry point x carrier is executed on all token sequences up to the bound and on seeded generated/mutated documents; an independent recogniser decides what must be accepted. Held on the cases observed, not a proof over all byte strings.",
          "Trusted: the harness recogniser (cross-checked against serde_json), rustc, ASan runtime. Depth is capped at 64 so the permitted nesting-limit rejection never explains a verdict."),
